@@ -332,6 +332,22 @@ def run(tier, seed, replay=None):
                 res.violation(msg, {"signature": sig, "files": {n: cells[n] for n in names[:8]}})
         else:
             nontrivial.add("valid shape matrix")
+        # which of the inputs does pyscn's own parser reject? (asked in process; only inputs that are valid UTF-8 and small enough to go through the line protocol)
+        unparseable = set()
+        askable = []
+        for bi, (label, data) in enumerate(bad):
+            if len(data) <= 200000 and b"\x00" not in data:
+                try:
+                    askable.append((bi, data.decode("utf-8")))
+                except UnicodeDecodeError:
+                    pass
+        try:
+            ans = C.harness_batch("cfg", [{"Src": t, "Path": "bad.py", "AST": False} for _, t in askable])
+            unparseable = {bi for (bi, _), a in zip(askable, ans) if "parse_error" in a}
+        except Exception:
+            unparseable = set()
+        hist["rejected_by_the_parser"] = len(unparseable)
+        hist["unparseable_and_reported"] = 0
         for bi, (label, data) in enumerate(bad):
             hist["by_kind"][label] = hist["by_kind"].get(label, 0) + 1
             limit = 20.0 + 40e-6 * len(data)
@@ -370,6 +386,34 @@ def run(tier, seed, replay=None):
                     res.violation(msg, dict(info, signature=sig, args=args, stderr=se[-800:]))
                 continue
             nontrivial.add(label)
+            # ---- "a file that cannot be parsed is reported as an error or warning": whatever the selection, a run that ends with status 0 must name the
+            # file in an error/warning of the report or on stderr
+            if bi in unparseable and rc == 0:
+                mention = "bad.py" in se
+                reps = glob.glob(os.path.join(root, ".pyscn", "reports", "*"))
+                if not mention and fmt == "--json" and reps:
+                    try:
+                        def errs(x, path):
+                            if isinstance(x, dict):
+                                return any(errs(v, path + [k]) for k, v in x.items())
+                            if isinstance(x, list):
+                                return any(errs(v, path) for v in x)
+                            return isinstance(x, str) and "bad.py" in x and any(("rror" in k or "arning" in k) for k in path)
+                        mention = errs(json.load(open(reps[0])), [])
+                    except Exception:
+                        mention = True     # unreadable report: not this clause's business
+                elif not mention and fmt != "--json":
+                    mention = True         # only the JSON report is searched for error lists
+                if mention:
+                    hist["unparseable_and_reported"] += 1
+                else:
+                    sig = {"kind": "unreported-bad-file", "select": (sel[1] if sel else "all")}
+                    k = C.classify(PID, sig)
+                    msg = "C06: `pyscn %s` exits 0 on a file its parser rejects (kind `%s`) and reports it neither as an error nor as a warning (report and stderr do not name it)" % (" ".join(args), label)
+                    if k:
+                        res.known_finding(k, "(%s)" % msg[:250])
+                    else:
+                        res.violation(msg, dict(info, signature=sig, args=args, stderr=se[-400:]))
             # ---- mixed into the project of valid files --------------------------------------------------------------------------------------
             if bi % (2 if tier == "quick" else 3) == 0 or " KB" in label:
                 root = os.path.join(tmp, "m%d" % bi)
